@@ -394,6 +394,8 @@ class LbWorld(object):
       for e in range(self.universe):
         if e in self.members and self._nnotif() < p.get('max_notifications', 99) and not getattr(self, '_leavex', False):
           ops.append(['LeaveX', e])
+    if 'Back' in alpha and self.lp.wall_offset == 0.0:
+      ops.append(['Back', 0])
     if 'Gate' in alpha and self.loading:
       ops.append(['Gate'])
     if 'Adv' in alpha and not self.loading:
@@ -548,6 +550,15 @@ class LbWorld(object):
       d['pending'] = sum(1 for n in nodes if n.channel.open_ars)
     return d
 
+  def _ref_clock(self):
+    """Reference time base of the load average: the wall clock, never going backwards (a backward step freezes it)."""
+    self.m_clock = max(getattr(self, 'm_clock', float('-inf')), self.lp.wall())
+    return self.m_clock
+
+  def _op_Back(self, k):
+    """The wall clock steps backwards (NTP correction, VM migration); the event loop's own time does not."""
+    self.lp.wall_offset -= [10.0, 0.05][k]
+
   def _ema_update(self, ts, sample):
     if self.m_ema is None:
       self.m_ema = (float(sample), ts)
@@ -584,7 +595,7 @@ class LbWorld(object):
         self.v('C06.max-size', 'after %r: load-driven growth took the active set from %d to %d, beyond max_size=%d'
                % (op, pre['size'], post['size'], mx))
     if adjusted:
-      ema = self._ema_update(self.lp.now(), post['total'])
+      ema = self._ema_update(self._ref_clock(), post['total'])
       if abs(lb._ema.value - ema) > 1e-9:
         self.v('C06.ema', 'after %r: smoothed load is %.6f, reference EMA of outstanding requests is %.6f' % (op, lb._ema.value, ema))
       if pre['all_open'] and pre['size'] > 0 and p.get('c06_response', True):
@@ -642,7 +653,7 @@ class LbWorld(object):
     k.append(self._nnotif() if self.p.get('max_notifications') else 0)
     k.append(getattr(self, '_leavex', False))
     if self.m_ema is not None and self.p.get('c06'):
-      k.append((round(self.m_ema[0], 9), round(now - self.m_ema[1], 6)))
+      k.append((round(self.m_ema[0], 9), round(now - self.m_ema[1], 6), self.lp.wall_offset))
     return repr(k)
 
 
